@@ -413,6 +413,68 @@ theorem dithers1_sum_zero [CharZero K] (n : Nat) (hn : 0 < n) : (dithers1 n : Li
   field_simp
   ring
 
+/-- hcipy's dither set — the tensor product of the per-axis uniform dithers, any oversampling
+factors — has zero mean -/
+theorem uniform_dithers_zero_mean [CharZero K] (ns : List Nat) (h : ∀ n ∈ ns, 0 < n) :
+    ZeroMean ns.length (tensorPts (ns.map dithers1) : List (List K)) := by
+  constructor
+  · intro d hd
+    have := tensorPts_length (ns.map dithers1 : List (List K)) d hd
+    simpa using this
+  · have := vsum_tensorPts_zero (ns.map dithers1 : List (List K)) (by
+      intro ax hax
+      obtain ⟨n, hn, rfl⟩ := List.mem_map.mp hax
+      exact dithers1_sum_zero n (h n hn))
+    simpa using this
+
+/-- **Supersampled evaluation with hcipy's own dithers is exact on affine functions**: every
+dimension, every per-axis oversampling factor, every point and cell widths. -/
+theorem supersampled_affine_exact_uniform [CharZero K] (ns : List Nat) (h : ∀ n ∈ ns, 0 < n)
+    (c0 : K) (c x δ : List K) (hc : c.length = ns.length) (hx : x.length = ns.length)
+    (hδ : δ.length = ns.length) :
+    superMean (affine c0 c) (tensorPts (ns.map dithers1)) x δ = affine c0 c x := by
+  apply supersampled_affine_exact ns.length c0 c x δ _ hc hx hδ _ (uniform_dithers_zero_mean ns h)
+  -- the dither set is not empty
+  have key : ∀ ns : List Nat, (∀ n ∈ ns, 0 < n) → (tensorPts (ns.map dithers1) : List (List K)) ≠ [] := by
+    intro ns
+    induction ns with
+    | nil => intro _; simp [tensorPts]
+    | cons n ns ih =>
+      intro hn
+      have hpos : 0 < n := hn n (by simp)
+      have hr := ih (fun m hm => hn m (by simp [hm]))
+      obtain ⟨q, hq⟩ := List.exists_mem_of_ne_nil _ hr
+      have hd : (dithers1 n : List K) ≠ [] := by
+        unfold dithers1
+        intro he
+        have : (List.range n).length = 0 := by
+          have := congrArg List.length he
+          simpa using this
+        simp at this; omega
+      obtain ⟨t, ht⟩ := List.exists_mem_of_ne_nil _ hd
+      intro he
+      have : (t :: q) ∈ tensorPts ((n :: ns).map dithers1 : List (List K)) := by
+        simp only [List.map_cons, tensorPts, List.mem_flatMap, List.mem_map]
+        exact ⟨t, ht, q, hq, rfl⟩
+      rw [he] at this
+      simp at this
+  exact key ns h
+
+/-- **`evaluate_supersampled` of an affine generator** (the executable model, separated grid
+`sep`, per-axis oversampling `ns`): every output sample is the generator evaluated at the grid
+point itself — the cell widths `δ` drop out. -/
+theorem evalSupersampled_affine_exact [CharZero K] (sep : List (List K)) (ns : List Nat)
+    (h : ∀ n ∈ ns, 0 < n) (c0 : K) (c : List K) (hc : c.length = ns.length)
+    (hs : sep.length = ns.length) :
+    evalSupersampled (affine c0 c) sep ns =
+      (gridPts (sep.map fun ax => List.zip ax (deltas ax))).map fun pt => affine c0 c (pt.map Prod.fst) := by
+  unfold evalSupersampled
+  apply List.map_congr_left
+  intro pt hpt
+  have hl := gridPts_length _ pt hpt
+  simp only [List.length_map] at hl
+  exact supersampled_affine_exact_uniform ns h c0 c _ _ hc (by simp [hl, hs]) (by simp [hl, hs])
+
 /-! ## the unrepaired tree -/
 
 /-- D11: with the axes handed over un-reversed, the affine field `1 + 2x + 3y` on
